@@ -68,7 +68,7 @@ struct Op {
     std::string note;
     std::shared_ptr<MFile> snap;      // schema (and for INQ: state) the call is checked against
     std::shared_ptr<Model> msnap;     // CHECKPOINT: full model snapshot for the raw-image oracles
-    std::vector<long long> exp_nreqs, exp_usage;
+    std::vector<long long> exp_nreqs, exp_usage, exp_usage_tail;   // exp_usage_tail: what a tail-only reclaiming allocator would report
     std::vector<long long> exp_numrecs_lo, exp_numrecs_hi;   // per rank: bounds on the record count the rank must report after the op (empty = unchecked)   // per rank: pending request count / attached-buffer usage after the op (-1 = unchecked)
 };
 
